@@ -28,6 +28,9 @@ class Target:
         elif kind == "bimodal":
             self.mu = np.full(n_dim, 2.5)
             self.sig = np.full(n_dim, 0.6)
+        elif kind == "narrow":  # two well separated narrow modes (sigma = 1% of the cube): the hierarchical clusterer does split
+            self.mu = np.full(n_dim, 2.5)
+            self.sig = np.full(n_dim, 0.1)
         elif kind == "edge":  # posterior mass abuts the lower prior boundary
             self.mu = np.full(n_dim, lo)
             self.sig = np.full(n_dim, 1.0)
@@ -46,7 +49,7 @@ class Target:
         if self.support is not None and not (x[0] < self.lo + self.support * (self.hi - self.lo)):
             return -np.inf
         s = 0.0
-        if self.kind == "bimodal":
+        if self.kind in ("bimodal", "narrow"):
             a = 0.0
             b = 0.0
             for j in range(self.n_dim):
